@@ -70,8 +70,47 @@ def _ret_class(tree, kind):
     return "unknown"
 
 
+def _failure_guards(fn, block_id):
+    """Call nodes whose *failure* is a dominating condition of block_id:
+    `if (!f(..)) <block>` / `if (f(..)) {} else <block>` /
+    `Status s = f(..); if (!s.ok()) <block>`."""
+    from .cfgutil import dominating_edges, _strip_not
+    inits = fn.__dict__.get("_status_inits")
+    if inits is None:
+        inits = {}
+        for b, kind, tree, ev in fn.roots():
+            if kind == "decl" and isinstance(tree, dict):
+                t = tree
+                while isinstance(t, dict) and t.get("k") in ("copy", "icast"):
+                    t = t.get("e")
+                if isinstance(t, dict) and t.get("k") == "call" and "d" in ev.get("var", {}):
+                    inits[ev["var"]["d"]] = t
+        fn.__dict__["_status_inits"] = inits
+    out = []
+    for cb, oc, cond in dominating_edges(fn, block_id):
+        if isinstance(oc, tuple):
+            continue
+        tree, pos = _strip_not(cond, oc)
+        if not isinstance(tree, dict) or tree.get("k") != "call":
+            continue
+        if pos:
+            continue          # the call *succeeded* on this edge
+        base = strip_targs(tree.get("fn") or "")
+        if base in ("draco::Status::ok", "draco::StatusOr::ok"):
+            obj = tree.get("obj")
+            while isinstance(obj, dict) and obj.get("k") in ("copy", "icast"):
+                obj = obj.get("e")
+            if isinstance(obj, dict) and obj.get("k") == "var" and obj.get("d") in inits:
+                out.append(inits[obj["d"]])
+            continue
+        if ret_kind(tree.get("ret")):
+            out.append(tree)
+    return out
+
+
 class CanFail:
-    """Least set of functions that may report failure."""
+    """Least set of functions that may report failure.  A failing return that
+    is only reachable when a callee that cannot fail has failed is dead."""
 
     def __init__(self, F, extra_can_fail=()):
         self.F = F
@@ -82,7 +121,8 @@ class CanFail:
 
     def _compute(self):
         F = self.F
-        pending = {}          # key -> list of call nodes returned
+        from .cfgutil import classify_return
+        pending = {}          # key -> list of (reason, guards, returned_call)
         for fn in F.fns.values():
             k = ret_kind(fn.ret.get("t"))
             if fn.base in self.extra:
@@ -92,33 +132,37 @@ class CanFail:
             if not k:
                 continue
             self.kind[fn.key] = k
-            calls = []
+            items = []
             reach = fn.reach_all()
             for b, ev in fn.returns():
                 if b.id not in reach:
                     continue
-                c = _ret_class(ev.get("e"), k)
+                c = classify_return(fn, b, ev)
                 if c == "ok":
                     continue
+                guards = _failure_guards(fn, b.id)
+                site = fn.site(ev.get("loc", ""))
                 if c == "fail":
-                    self.cf.setdefault(fn.key, "returns failure at %s" % fn.site(ev.get("loc", "")))
+                    items.append(("returns failure at %s" % site, guards, None))
                 elif c == "unknown":
-                    self.cf.setdefault(fn.key, "returns a computed value at %s" % fn.site(ev.get("loc", "")))
+                    items.append(("returns a computed value at %s" % site, guards, None))
                 else:
-                    calls.append(c[1])
-            pending[fn.key] = calls
+                    items.append(("returns result of %s" % c[1].get("fn"), guards, c[1]))
+            pending[fn.key] = items
         changed = True
         while changed:
             changed = False
-            for key, calls in pending.items():
+            for key, items in pending.items():
                 if key in self.cf:
                     continue
-                for c in calls:
-                    r = self.call_can_fail(c)
-                    if r:
-                        self.cf[key] = "returns result of %s" % (c.get("fn"))
-                        changed = True
-                        break
+                for reason, guards, rcall in items:
+                    if rcall is not None and not self.call_can_fail(rcall):
+                        continue
+                    if any(self.F.targets(g) and not self.call_can_fail(g) for g in guards):
+                        continue      # guarded by the failure of an infallible call
+                    self.cf[key] = reason
+                    changed = True
+                    break
 
     def call_can_fail(self, call):
         """reason string if the call may report failure, else ''. """
